@@ -49,6 +49,11 @@ def exact_curve_derivative(P, T, t, m):
 
 
 def run(ctx):
+    if ctx.shard == ctx.nshards - 1:
+        # the by-name calling convention of the shipped functions this property is about (see vlib/named.py)
+        from .. import named
+        named.monitor(ctx, ['bezier:bezier3_solve', 'bezier:bezier3_traj', 'bezier:bezier7_solve', 'bezier:bezier7_traj', 'bezier:bezier_multirotor'], ctx.rng("named"))
+        ctx.require("call_by_argument_name", "(by-name calls never evaluated)")
     from cyecca.models import bezier as bz
     rng = ctx.rng("c18")
     if ctx.shard % 2 == 0:
